@@ -331,27 +331,33 @@ func (s *Solver) Check(extra *Term) string {
 	return r
 }
 
-// freshCheck: reset, replay the base-level script, ask once with the full timeout; leaves the solver at base level.
+// freshCheck: reset, replay the base-level script, ask once with the full timeout and WITHOUT push/pop, then
+// rebuild the base level. z3 answers a scoped query with its incremental core, which is much weaker on wide
+// bit-vectors under uninterpreted functions (measured: unknown at 5 s scoped, unsat in 20 ms unscoped).
 func (s *Solver) freshCheck(extra *Term) string {
 	s.Retries++
 	base := append([]string{}, s.base...)
-	s.replaying = true
-	s.send("(reset)")
-	s.send(fmt.Sprintf("(set-option :timeout %d)", s.timeout))
-	for _, l := range base {
-		s.send(l)
+	replay := func() {
+		s.replaying = true
+		s.send("(reset)")
+		s.send(fmt.Sprintf("(set-option :timeout %d)", s.timeout))
+		for _, l := range base {
+			s.send(l)
+		}
+		s.replaying = false
+		s.base = base
 	}
-	s.replaying = false
-	s.base = base
+	replay()
 	if extra != nil {
-		s.send("(push 1)")
+		s.replaying = true
 		s.send("(assert " + extra.SMT() + ")")
+		s.replaying = false
 	}
 	s.send("(check-sat)")
-	if extra != nil {
-		s.send("(pop 1)")
-	}
 	r := s.classify(s.sync())
+	if extra != nil {
+		replay()
+	}
 	if r == "sat" || r == "unsat" {
 		s.RetryWins++
 	}
